@@ -83,6 +83,7 @@ def alphabet(scn):
         evs.append(Req('decr', name='a'))
         evs.append(Req('decr', label='decr(nb=2)', name='a', nb=2))
         evs.append(Req('decr', label='decr(nb=9)', name='a', nb=9))
+        evs.append(Req('incr', label='incr(nb=-9)', name='a', nb=-9))      # nothing validates the sign of nb
         for k in (0, 1, 2, 3):
             if k != w.numprocesses:
                 evs.append(Req('set', label='set(np=%d)' % k, name='a', options={'numprocesses': k}))
